@@ -433,6 +433,21 @@ where
             })
     }
 
+    /// Consume the trailing bytes of a value
+    /// whose length is not a multiple of the size of its components,
+    /// so that the source stays in line with the declared length.
+    fn skip_value_remainder(&mut self, rem: usize) -> Result<()> {
+        if rem != 0 {
+            let mut buf = [0u8; 8];
+            self.from
+                .read_exact(&mut buf[..rem])
+                .context(ReadValueDataSnafu {
+                    position: self.position,
+                })?;
+        }
+        Ok(())
+    }
+
     fn read_value_tag(&mut self, header: &DataElementHeader) -> Result<PrimitiveValue> {
         let len = self.require_known_length(header)?;
 
@@ -447,8 +462,10 @@ where
                     })
             })
             .collect();
+        let parts = parts?;
+        self.skip_value_remainder(len & 3)?;
         self.position += len as u64;
-        Ok(PrimitiveValue::Tags(parts?))
+        Ok(PrimitiveValue::Tags(parts))
     }
 
     fn read_value_ob(&mut self, header: &DataElementHeader) -> Result<PrimitiveValue> {
@@ -539,6 +556,7 @@ where
                 position: self.position,
             })?;
 
+        self.skip_value_remainder(len & 1)?;
         self.position += len as u64;
         Ok(PrimitiveValue::I16(vec))
     }
@@ -553,6 +571,7 @@ where
             .context(ReadValueDataSnafu {
                 position: self.position,
             })?;
+        self.skip_value_remainder(len & 3)?;
         self.position += len as u64;
         Ok(PrimitiveValue::F32(vec))
     }
@@ -746,6 +765,7 @@ where
             .context(ReadValueDataSnafu {
                 position: self.position,
             })?;
+        self.skip_value_remainder(len & 7)?;
         self.position += len as u64;
         Ok(PrimitiveValue::F64(vec))
     }
@@ -761,6 +781,7 @@ where
             .context(ReadValueDataSnafu {
                 position: self.position,
             })?;
+        self.skip_value_remainder(len & 3)?;
         self.position += len as u64;
         Ok(PrimitiveValue::U32(vec))
     }
@@ -790,6 +811,7 @@ where
                 position: self.position,
             })?;
 
+        self.skip_value_remainder(len & 1)?;
         self.position += len as u64;
 
         if header.tag == Tag(0x0028, 0x0103) {
@@ -811,6 +833,7 @@ where
             .context(ReadValueDataSnafu {
                 position: self.position,
             })?;
+        self.skip_value_remainder(len & 7)?;
         self.position += len as u64;
         Ok(PrimitiveValue::U64(vec))
     }
@@ -826,6 +849,7 @@ where
             .context(ReadValueDataSnafu {
                 position: self.position,
             })?;
+        self.skip_value_remainder(len & 3)?;
         self.position += len as u64;
         Ok(PrimitiveValue::I32(vec))
     }
@@ -841,6 +865,7 @@ where
             .context(ReadValueDataSnafu {
                 position: self.position,
             })?;
+        self.skip_value_remainder(len & 7)?;
         self.position += len as u64;
         Ok(PrimitiveValue::I64(vec))
     }
@@ -1088,7 +1113,11 @@ where
     }
 
     fn read_u32_to_vec(&mut self, length: u32, vec: &mut Vec<u32>) -> Result<()> {
-        self.read_u32((length >> 2) as usize, vec)
+        self.read_u32((length >> 2) as usize, vec)?;
+        let rem = (length & 3) as usize;
+        self.skip_value_remainder(rem)?;
+        self.position += rem as u64;
+        Ok(())
     }
 
     fn read_to<W>(&mut self, length: u32, mut out: W) -> Result<()>
